@@ -108,23 +108,25 @@ peg::parser! {
             radix:decimal_literal() "#" s:$(['0'..='9' | 'a'..='z' | 'A'..='Z' | '@' | '_']+) {?
                 parse_shell_literal_number(s, radix.cast_unsigned())
             } /
-            // Hex literal
+            // Hex literal. As in bash, the value wraps around on overflow and a bare
+            // `0x` is zero.
             "0" ['x' | 'X'] s:$(['0'..='9' | 'a'..='f' | 'A'..='F']*) {?
-                i64::from_str_radix(s, 16).or(Err("i64"))
+                parse_shell_literal_number(s, 16)
             } /
-            // Octal literal
+            // Octal literal (wraps around on overflow; `8` is not an octal digit).
             s:$("0" ['0'..='8']*) {?
-                i64::from_str_radix(s, 8).or(Err("i64"))
+                parse_shell_literal_number(s, 8)
             } /
             // Decimal literal
             decimal_literal()
 
         rule decimal_literal() -> i64 =
             s:$(['1'..='9'] ['0'..='9']*) {?
-                // Parse as u64 first, then cast to i64. This handles values like
+                // Accumulate with wrap-around, as bash does. This handles values like
                 // 9223372036854775808 (i64::MAX + 1) which is needed for INT64_MIN
-                // when preceded by unary minus: -(9223372036854775808) wraps to i64::MIN.
-                s.parse::<u64>().map(|v| v.cast_signed()).or(Err("i64"))
+                // when preceded by unary minus: -(9223372036854775808) wraps to i64::MIN,
+                // and larger values are reduced modulo 2^64.
+                parse_shell_literal_number(s, 10)
             }
     }
 }
